@@ -540,12 +540,34 @@ func checkC09(c *Ctx) {
 	// ---- R1
 	isRelID1, isRelID2 := hopID("tubes", "Tube", "IsReliable"), hopID("tubes", "Reliable", "IsReliable")
 	nAcc := 0
-	for _, fname := range []string{"(*Muxer).addTube", "(*Muxer).getTube", "(*Muxer).reapTube", "(*Muxer).pickTubeID"} {
-		fn := P.Func("tubes", fname)
-		if fn == nil {
-			c.Undecided("C09.R1", "tubes."+fname, "function not found")
-			continue
+	fRELflag := P.Field("tubes", "frameFlags", "REL")
+	fFrameTubeID := P.Field("tubes", "frame", "tubeID")
+	fInitTubeID := P.Field("tubes", "initiateFrame", "tubeID")
+	// every function of the package that makes a keyed access to one of the two tables
+	var accessors []*ssa.Function
+	for _, f := range P.ModuleFuncs("tubes") {
+		keyed := false
+		eachInstr(f, func(ins ssa.Instruction) {
+			var m ssa.Value
+			switch x := ins.(type) {
+			case *ssa.Lookup:
+				m = x.X
+			case *ssa.MapUpdate:
+				m = x.Map
+			case *ssa.Call:
+				if b, ok := x.Call.Value.(*ssa.Builtin); ok && b.Name() == "delete" {
+					m = x.Call.Args[0]
+				}
+			}
+			if m != nil && (endsInField(m, fRel, false) || endsInField(m, fUnrel, false)) {
+				keyed = true
+			}
+		})
+		if keyed {
+			accessors = append(accessors, f)
 		}
+	}
+	for _, fn := range accessors {
 		c.Analysed(FuncName(fn))
 		mf := ComputeMustFacts(fn)
 		predAt := func(ins ssa.Instruction) (val, known bool) {
@@ -558,8 +580,13 @@ func checkC09(c *Ctx) {
 						return v, true
 					}
 				}
-				if prm, ok := lookThrough(k.x).(*ssa.Parameter); ok && prm.Name() == "isReliable" {
-					return v, true
+				if prm, ok := lookThrough(k.x).(*ssa.Parameter); ok {
+					if bt, isB := prm.Type().Underlying().(*types.Basic); isB && bt.Kind() == types.Bool {
+						return v, true // the reliability the caller asks for
+					}
+				}
+				if fRELflag != nil && lastField(k.x) == fRELflag {
+					return v, true // the REL flag of the frame being dispatched
 				}
 			}
 			return false, false
@@ -586,8 +613,13 @@ func checkC09(c *Ctx) {
 				if call, _ := fromCall(kv); call != nil && calleeFunc(&call.Call) != nil && calleeFunc(&call.Call).Name() == "GetID" {
 					kOK = true
 				}
-				if prm, ok := lookThrough(kv).(*ssa.Parameter); ok && prm.Name() == "tubeID" {
-					kOK = true
+				if prm, ok := lookThrough(kv).(*ssa.Parameter); ok {
+					if bt, isB := prm.Type().Underlying().(*types.Basic); isB && (bt.Kind() == types.Uint8 || bt.Kind() == types.Byte) {
+						kOK = true // the tube id asked for
+					}
+				}
+				if lf := lastField(kv); lf != nil && (lf == fFrameTubeID || lf == fInitTubeID) {
+					kOK = true // the tube id of the frame being dispatched
 				}
 				if cv, ok := kv.(*ssa.Convert); ok {
 					if _, isPhi := cv.X.(*ssa.Phi); isPhi {
@@ -610,7 +642,7 @@ func checkC09(c *Ctx) {
 			}
 		})
 	}
-	c.Floor("C09.R1", "tube-table accesses in addTube/getTube/reapTube/pickTubeID", nAcc, 8)
+	c.Floor("C09.R1", "keyed tube-table accesses in package tubes", nAcc, 8)
 	for _, spec := range []struct {
 		fn   string
 		want bool
@@ -635,6 +667,9 @@ func checkC09(c *Ctx) {
 	fTubeID := P.Field("tubes", "frame", "tubeID")
 	if rcv != nil && fREL != nil && fTubeID != nil {
 		c.Analysed(FuncName(rcv))
+		if P.Func("tubes", "(*Muxer).getTube") == nil {
+			c.OK("C09.R1", FuncName(rcv)+"#dispatch", P.Pos(rcv.Pos()), "no getTube helper: the receiver's own table accesses are checked above (REL flag, frame tube id)")
+		}
 		for _, cs := range callSitesIn(rcv, false, hopID("tubes", "Muxer", "getTube")) {
 			a := cs.Common().Args
 			okv := len(a) == 3 && endsInField(a[1], fREL, false) && endsInField(a[2], fTubeID, false)
@@ -853,6 +888,10 @@ func c09R2R3(c *Ctx) {
 					}
 					if ex, ok := k.x.(*ssa.Extract); ok && ex.Index == 1 && !v {
 						if call, ok := ex.Tuple.(*ssa.Call); ok && calleeID(call) == hopID("tubes", "Muxer", "getTube") {
+							notFound = true
+						}
+						// the lookup written out in the receiver itself
+						if lk, ok := ex.Tuple.(*ssa.Lookup); ok && lk.CommaOk && (endsInField(lk.X, P.Field("tubes", "Muxer", "reliableTubes"), false) || endsInField(lk.X, P.Field("tubes", "Muxer", "unreliableTubes"), false)) {
 							notFound = true
 						}
 					}
